@@ -79,7 +79,7 @@ def parse_key(key):
 def routing(section):
     """section: list of [key, dests] -> dict (fac, sev) -> set(files); '*' facility fans out."""
     r = {}
-    for key, dests in section:
+    for key, dests in (section or []):
         pk = parse_key(key)
         if pk is None:
             continue
@@ -179,10 +179,17 @@ def c18_s(draw, pid, tier, opts=None):
                     seen.add(key.lower())
                     dedup.append([key, d])
             sections.append(dedup)
-    return {"sections": sections}
+    # now and then the reloaded file has no logs block at all
+    for i in range(1, len(sections)):
+        if draw(st.integers(0, 11)) == 0:
+            sections[i] = None
+    pads = draw(st.lists(st.sampled_from([0, 0, 0, 1, 40, 500, 900, 960, 975, 980]), min_size=3, max_size=3))
+    return {"sections": sections, "pads": pads}
 
 
 def render_section(section):
+    if section is None:
+        return "core { };\n"        # a valid file without any logs block
     L = ["logs {"]
     for key, dests in section:
         if isinstance(dests, str):
@@ -194,6 +201,13 @@ def render_section(section):
 
 
 # ---------------------------------------------------------------------------
+
+def token(case, k, fac, s):
+    """Unique message text; some are padded up to just below the logger's documented 1000-byte limit."""
+    pads = case.get("pads") or [0]
+    n = pads[(k * 7 + s + len(fac)) % len(pads)]
+    return "T%d-%s-%d-%s-end" % (k, fac, s, "x" * n)
+
 
 def make_context(pid, tier, widx, opts):
     root = os.path.join(vc.BUILD, "tmp", "%d-%d" % (os.getpid(), widx))
@@ -222,7 +236,7 @@ def evaluate(case, ctx):
         cmds.append("load l%d.conf" % k)
         for fac in FACS:
             for s in range(6):
-                cmds.append("emit %s %d T%d-%s-%d-end" % (fac, s, k, fac, s))
+                cmds.append("emit %s %d %s" % (fac, s, token(case, k, fac, s)))
     env = dict(os.environ)
     env["ASAN_OPTIONS"] = "detect_leaks=0:abort_on_error=0:exitcode=23"
     env["UBSAN_OPTIONS"] = "halt_on_error=0"
@@ -260,7 +274,7 @@ def evaluate(case, ctx):
                         res.violations.append(V("incomplete_line", "line in %s is not a complete '[time] (facility:severity) message' line: %r" % (f, ln[:160])))
                     continue
                 msg = m.group(3)
-                tm = re.match(r"^T(\d+)-([a-z0-9]+)-(\d)-end$", msg)
+                tm = re.match(r"^T(\d+)-([a-z0-9]+)-(\d)-x*-end$", msg)
                 if not tm:
                     continue
                 seen.setdefault(msg, {}).setdefault("file:" + f, []).append((m.group(1), m.group(2)))
@@ -273,7 +287,7 @@ def evaluate(case, ctx):
         prev = r
         for fac in FACS:
             for s in range(6):
-                tok = "T%d-%s-%d-end" % (k, fac, s)
+                tok = token(case, k, fac, s)
                 want = expected_files(r, fac, s)
                 got = set(seen.get(tok, {}).keys())
                 if got != want:
@@ -288,15 +302,20 @@ def evaluate(case, ctx):
             else:
                 continue
             break
-    ops = any(any(o in key for o in "<>") for sec in case["sections"] for key, _ in sec)
-    ndest = len({d for sec in case["sections"] for _, ds in sec for d in ([ds] if isinstance(ds, str) else ds)})
+    secs = [sec for sec in case["sections"] if sec]
+    ops = any(any(o in key for o in "<>") for sec in secs for key, _ in sec)
+    ndest = len({d for sec in secs for _, ds in sec for d in ([ds] if isinstance(ds, str) else ds)})
     res.nontrivial = ops and ndest >= 2 and rerouted
     if rerouted:
         res.classes.add("rerouted_by_reload")
     if ops:
         res.classes.add("range_operator")
-    if any(parse_key(key) is None for sec in case["sections"] for key, _ in sec):
+    if any(parse_key(key) is None for sec in secs for key, _ in sec):
         res.classes.add("entry_with_unknown_syntax")
-    if any(key.startswith("*.") for sec in case["sections"] for key, _ in sec):
+    if any(key.startswith("*.") for sec in secs for key, _ in sec):
         res.classes.add("star_facility")
+    if any(sec is None for sec in case["sections"]):
+        res.classes.add("reload_without_logs_block")
+    if any(p >= 900 for p in case.get("pads") or []):
+        res.classes.add("message_near_1000_bytes")
     return res
